@@ -3,3 +3,8 @@ module bfvc
 go 1.26.8
 
 require golang.org/x/tools v0.50.0
+
+require (
+	golang.org/x/mod v0.41.0 // indirect
+	golang.org/x/sync v0.23.0 // indirect
+)
